@@ -5,3 +5,6 @@ package syntax
 // verifRewritesOff guards the verification switch that disables the semantics-preserving
 // rewrites; without the verif build tag it is constant false and compiles away.
 func verifRewritesOff() bool { return false }
+
+// verifReduceOff guards the verification switch that keeps the parser's tree unreduced.
+func verifReduceOff() bool { return false }
